@@ -441,6 +441,21 @@ func (l *queue) Advance() error {
 	return nil
 }
 
+// skipDrainedHead drops the head segment if every block in it has been delivered and
+// another segment follows it. Unlike Advance it never moves past a block: if the head
+// segment holds a block (appended after the caller found it at its end) nothing happens.
+func (l *queue) skipDrainedHead() error {
+	l.mu.Lock()
+	defer l.mu.Unlock()
+	if l.head == nil {
+		return ErrNotOpen
+	}
+	if !l.head.drained() {
+		return nil
+	}
+	return l.trimHead()
+}
+
 func (l *queue) trimHead() error {
 	if len(l.segments) > 1 {
 		l.segments = l.segments[1:]
